@@ -491,6 +491,7 @@ func GenHistory(t *rapid.T, b Bias) History {
 			}
 			if k == "compactooo" {
 				g.m.OOOCompacted()
+				g.established, g.creator = map[int]bool{}, map[int]int{}
 			}
 			g.ops = append(g.ops, Op{K: k})
 		case "evictstale", "evictsel":
